@@ -90,7 +90,7 @@ func c18Template(r *R) string {
 	n := r.Range(2, 7)
 	dump := func(e string) string { return "\x01{{ " + e + "|json_encode }}\x02" }
 	for i := 0; i < n; i++ {
-		switch r.N(18) {
+		switch r.N(19) {
 		case 0, 1:
 			l, f := listAndFilter(r)
 			sb.WriteString("{{ " + l + "|" + f + "|json_encode }};")
@@ -140,6 +140,11 @@ func c18Template(r *R) string {
 		case 14:
 			// nested interface{}-keyed map (as YAML decoders produce) reached by dot access and by subscript
 			sb.WriteString("{{ cfg.db.host }}{{ cfg['db']['port'] }}{{ cfg.db|" + pick(r, []string{"keys|json_encode", "json_encode", "merge({'x': 1})|keys|json_encode", "length"}) + " }}{{ cfg.list|first }};")
+		case 17:
+			// structs reached by pointer whose optional parts are absent: embedded pointer nil (promoted names
+			// unreachable), nil pointer field, nil map, nil slice - reading through them must not fill them in
+			h := pick(r, []string{"hold", "hold", "hold2", "(holders|first)", "(holders|last)"})
+			sb.WriteString("{{ " + h + "." + pick(r, []string{"ID", "Slug", "Title", "Opt.Name", "Opt", "Notes.k", "Notes|default({})|keys|length", "Refs|default([])|length", "Refs|first", "BaseRec.ID", "BaseRec"}) + "|default('-') }}{% for h in holders %}{{ h." + pick(r, []string{"ID", "Slug", "Title", "Opt.Age", "Notes.x"}) + " }}{% endfor %}{{ " + h + ".ID is defined ? 'd' : 'u' }};")
 		default:
 			sb.WriteString("{% do " + "n1 + 1 %}{{ pp.Inner.Name }}{{ pp.Greeting }}{{ l2|first|json_encode }};")
 		}
@@ -161,6 +166,10 @@ func (propC18) Gen(seed uint64, ex map[string]bool) interface{} {
 		KV{"nums", &Val{T: "list", L: []*Val{i(5), i(3), i(9), i(1), i(7)}}},
 		KV{"si", &Val{T: "simap", M: []KV{{"one", i(1)}, {"two", i(2)}, {"three", i(3)}}}},
 		KV{"counters", &Val{T: "counters", L: []*Val{i(1), i(5), i(9)}}},
+		KV{"hold", &Val{T: "holder", S: "bare"}},
+		KV{"hold2", &Val{T: "holder", S: "full", I: 7}},
+		KV{"holders", &Val{T: "holders", L: []*Val{{T: "holder", S: "h1"}, {T: "holder", S: "h2", I: 2}, {T: "holder", S: "h3"}}}},
+		KV{"loop", &Val{T: "map", M: []KV{{"index", s("callers")}, {"mine", i(1)}}}}, // a caller's variable that merely shares its name with the engine's loop variable
 		KV{"ui", &Val{T: "map", M: []KV{{"theme", s("dark")}}}}, // only ever used as an import alias and for |keys|length: a module map must not be printed (its macro objects print as addresses)
 		KV{"cfg", &Val{T: "map", M: []KV{
 			{"db", &Val{T: "anymap", M: []KV{{"host", s("h")}, {"port", i(5432)}, {"opts", &Val{T: "anymap", M: []KV{{"ssl", &Val{T: "bool", B: true}}}}}}}},
